@@ -307,4 +307,73 @@ theorem pick_slice_length_le {α : Type} (xs : List α) (a b c : Option Int) (id
   have h2 : (pick xs idx).length ≤ idx.length := by unfold pick; exact List.length_filterMap_le _ _
   omega
 
+/-! ### every selected position is inside the sequence -/
+
+theorem idx_in (start stop step : Int) (n k : Nat) (hz : step ≠ 0)
+    (hpos : 0 < step → 0 ≤ start ∧ stop ≤ n) (hneg : step < 0 → start ≤ n - 1 ∧ -1 ≤ stop)
+    (hk : k < (if step > 0 then (if start < stop then ((stop - start - 1) / step + 1).toNat else 0)
+      else (if start > stop then ((start - stop - 1) / (-step) + 1).toNat else 0))) :
+    0 ≤ start + step * (k : Int) ∧ start + step * (k : Int) < n := by
+  by_cases hp : step > 0
+  · simp only [hp, if_true] at hk
+    obtain ⟨h1, h2⟩ := hpos hp
+    split at hk
+    · have hq : (k : Int) ≤ (stop - start - 1) / step := by omega
+      have hm := (Int.le_ediv_iff_mul_le hp).mp hq
+      rw [Int.mul_comm] at hm
+      have h0 : 0 ≤ step * (k : Int) := Int.mul_nonneg (by omega) (by omega)
+      omega
+    · omega
+  · simp only [hp, if_false] at hk
+    have hn : step < 0 := by omega
+    obtain ⟨h1, h2⟩ := hneg hn
+    split at hk
+    · have hq : (k : Int) ≤ (start - stop - 1) / (-step) := by omega
+      have hm := (Int.le_ediv_iff_mul_le (by omega : 0 < -step)).mp hq
+      rw [Int.mul_neg, Int.mul_comm] at hm
+      have h0 : 0 ≤ (-step) * (k : Int) := Int.mul_nonneg (by omega) (by omega)
+      rw [Int.neg_mul] at h0
+      omega
+    · omega
+
+/-- **every position a slice selects lies inside the sequence**, whatever the bounds and the step -/
+theorem sliceIndices_mem_lt (n : Nat) (a b c : Option Int) (idx : List Nat)
+    (h : sliceIndices n a b c = .ok idx) : ∀ i, i ∈ idx → i < n := by
+  unfold sliceIndices at h
+  simp only at h
+  split at h
+  · cases h
+  · rename_i hz
+    injection h with h
+    subst h
+    intro i hi
+    obtain ⟨k, hk, rfl⟩ := List.mem_map.mp hi
+    have hk' := List.mem_range.mp hk
+    have := idx_in _ _ _ n k hz ?_ ?_ hk'
+    · omega
+    · intro hp
+      have hn' : ¬ (c.getD 1 < 0) := by omega
+      simp only [hn', if_false]
+      constructor
+      · cases a <;> simp only <;> (try split) <;> omega
+      · cases b <;> simp only <;> (try split) <;> omega
+    · intro hneg
+      simp only [hneg, if_true]
+      constructor
+      · cases a <;> simp only <;> (try split) <;> omega
+      · cases b <;> simp only <;> (try split) <;> omega
+
+/-- so `pick` drops nothing on the positions of a slice: the result has exactly as many elements as positions were selected -/
+theorem pick_slice_length_eq {α : Type} (xs : List α) (a b c : Option Int) (idx : List Nat)
+    (h : sliceIndices xs.length a b c = .ok idx) : (pick xs idx).length = idx.length := by
+  have hb := sliceIndices_mem_lt _ _ _ _ _ h
+  clear h
+  induction idx with
+  | nil => simp [pick]
+  | cons i r ih =>
+    have hi : i < xs.length := hb i (List.mem_cons_self ..)
+    have := ih (fun j hj => hb j (List.mem_cons_of_mem _ hj))
+    unfold pick at this ⊢
+    simp [List.getElem?_eq_getElem hi, this]
+
 end Sq
